@@ -18,7 +18,13 @@ func VerifC02Pool() {
 	db := newVerifStore()
 	price := big.NewInt(100000000000)
 	interval := int64(60000000000)
-	p := VerifNewPool(db, db, price, 60000000000, nil)
+	// optionally a minimum balance: a keep-alive that is cut off for low balance has been charged
+	// (C03), so it still ends the stretch of time it billed
+	var min *big.Int
+	if verifapi.Param("withmin", 0) == 1 {
+		min = verifapi.BigInt("min")
+	}
+	p := VerifNewPool(db, db, price, 60000000000, min)
 	t := verifapi.Time("t0")
 	verifapi.SetNow(t)
 	cid := verifapi.NodeID(0)
@@ -27,6 +33,9 @@ func VerifC02Pool() {
 	db.SetNode(store.Node{ID: store.NodeID(hid), IsHost: true, LastSeen: t, URI: uri})
 	isFull := verifapi.Bool("clientisfull")
 	if _, err := VerifConnect(p, &VerifHost{Name: "c", Addr: "192.0.2.7:1"}, cid, isFull, ""); err != nil {
+		if min != nil {
+			return // refused at connect: C03's subject
+		}
 		verifapi.Unreachable("c02.pool.connect")
 		return
 	}
@@ -54,12 +63,28 @@ func VerifC02Pool() {
 			resp, err = VerifUpdate(p, context.Background(), cid)
 		}
 		verifapi.Reach("c02.pool.update")
-		if err != nil {
-			verifapi.Unreachable("c02.pool.update-error")
-			return
-		}
 		after, _ := db.GetNodeBalance(store.NodeID(cid))
 		hostAfter, _ := db.GetNodeBalance(store.NodeID(hid))
+		if err != nil {
+			if min == nil || !VerifIsLowBalance(err) {
+				verifapi.Unreachable("c02.pool.update-error")
+				return
+			}
+			// cut off for low balance: the charge for this gap was applied (to zero or one host) and the
+			// gap is consumed: the next keep-alive bills from here
+			el := big.NewInt(int64(now.Sub(last)))
+			credit := new(big.Int).Div(new(big.Int).Mul(el, price), big.NewInt(interval))
+			got := new(big.Int).Sub(&before.Credit, &after.Credit)
+			gotHost := new(big.Int).Sub(&hostAfter.Credit, &hostBefore.Credit)
+			verifapi.Assert(got.Cmp(gotHost) == 0, "c02.pool.host-credited-what-client-paid")
+			verifapi.Assert(got.Sign() == 0 || got.Cmp(credit) == 0, "c02.pool.bills-exactly-the-gap")
+			verifapi.Assert(!isFull, "c02.pool.hosts-never-pay")
+			if report {
+				tracked, recorded = true, now
+			}
+			last = now
+			continue
+		}
 		nActive := int64(len(resp.ActivePeers))
 		// elapsed = time since the previous keep-alive/connect, floor(elapsed*price/interval) per active peer
 		el := big.NewInt(int64(now.Sub(last)))
